@@ -8,9 +8,11 @@ package main
 import (
 	"bytes"
 	"fmt"
+	"io"
 	realos "os"
 	"os/exec"
 	"path/filepath"
+	"regexp"
 	"sort"
 	"strconv"
 	"strings"
@@ -18,6 +20,7 @@ import (
 	"unsafe"
 
 	"github.com/go-gts/gts/internal/verifsim/core"
+	"github.com/go-gts/gts/internal/verifsim/simos"
 )
 
 func init() { core.Extras["fidelity"] = fidelityMain }
@@ -127,9 +130,12 @@ func realFifos(root string, argv []string) func() {
 	}
 	return func() {
 		for _, p := range paths {
-			// a feeder still waiting for a reader is released by this open
+			// a feeder still waiting for a reader is released by this open;
+			// what it then writes is drained, or a file larger than the pipe
+			// buffer would block it for good
 			if f, err := realos.OpenFile(p, realos.O_RDONLY|syscall.O_NONBLOCK, 0); err == nil {
 				defer f.Close()
+				go io.Copy(io.Discard, f)
 			}
 		}
 		for ; n > 0; n-- {
@@ -301,4 +307,272 @@ func havePty() bool {
 		}
 	}
 	return ptyState == 1
+}
+
+// ---- trace validation ----
+//
+// selftest tracecheck: the unmodified binary runs under strace and the
+// sequence of system calls it makes on cache and temp files is compared,
+// call by call, with the simulator's operation trace for the same step. The
+// simulator places faults by operation index; this is what shows that an
+// index means the same point in the real program.
+
+func init() { core.Extras["tracecheck"] = traceCheckMain }
+
+type normOp struct {
+	Kind string // create | open | read | write | seek | close | remove
+	Area string // cache | tmp
+	N    string // bytes moved, resulting offset, or ok / err
+}
+
+func simNorm(trace []simos.OpRec) []normOp {
+	var out []normOp
+	for _, o := range trace {
+		if o.Class != "cache" && o.Class != "tmp" {
+			continue
+		}
+		n := o.Res
+		switch o.Kind {
+		case "create", "open":
+			if strings.HasPrefix(o.Res, "fd") {
+				n = "ok"
+			} else {
+				n = "err"
+			}
+		case "read":
+			if o.Res == "EOF" {
+				n = "0"
+			}
+		case "close", "remove":
+			if o.Res == "ok" || o.Res == "0" || o.Res == "" {
+				n = "ok"
+			}
+		case "mkdirall", "stat", "readdir", "usercachedir", "tempdir":
+			continue
+		}
+		out = append(out, normOp{o.Kind, o.Class, n})
+	}
+	return out
+}
+
+var straceLine = regexp.MustCompile(`^(\d+)\s+(\w+)\((.*)\)\s+=\s+(-?\d+)(.*)$`)
+
+func realNorm(path, root string) ([]normOp, error) {
+	data, err := realos.ReadFile(path)
+	if err != nil {
+		return nil, err
+	}
+	pending := map[string]string{}
+	var out []normOp
+	area := func(s string) string {
+		switch {
+		case strings.Contains(s, root+"/cache/gts-cache/"):
+			return "cache"
+		case strings.Contains(s, root+"/tmp/"):
+			return "tmp"
+		}
+		return ""
+	}
+	for _, line := range strings.Split(string(data), "\n") {
+		if i := strings.Index(line, " <unfinished ...>"); i >= 0 {
+			f := strings.Fields(line)
+			if len(f) > 0 {
+				pending[f[0]] = line[:i]
+			}
+			continue
+		}
+		if i := strings.Index(line, "<... "); i >= 0 {
+			f := strings.Fields(line)
+			if j := strings.Index(line, " resumed>"); j >= 0 && len(f) > 0 {
+				line = pending[f[0]] + line[j+len(" resumed>"):]
+				delete(pending, f[0])
+			}
+		}
+		m := straceLine.FindStringSubmatch(line)
+		if m == nil {
+			continue
+		}
+		call, args, ret := m[2], m[3], m[4]
+		a := area(args)
+		if a == "" {
+			continue
+		}
+		okErr := "ok"
+		if strings.HasPrefix(ret, "-") {
+			okErr = "err"
+		}
+		switch call {
+		case "openat":
+			if strings.Contains(args, "O_DIRECTORY") {
+				continue
+			}
+			k := "open"
+			if strings.Contains(args, "O_CREAT") {
+				k = "create"
+			}
+			out = append(out, normOp{k, a, okErr})
+		case "read", "write":
+			out = append(out, normOp{call, a, ret})
+		case "copy_file_range", "sendfile":
+			// io.Copy between two files lets the kernel move the bytes: to
+			// the program it is a write of that many bytes
+			if ret != "0" && okErr == "ok" {
+				out = append(out, normOp{"write", a, ret})
+			}
+		case "lseek":
+			out = append(out, normOp{"seek", a, ret})
+		case "close":
+			out = append(out, normOp{"close", a, okErr})
+		case "unlinkat":
+			if strings.Contains(args, "AT_REMOVEDIR") {
+				continue // os.Remove falls back to rmdir after a failed unlink
+			}
+			out = append(out, normOp{"remove", a, okErr})
+		}
+	}
+	return out, nil
+}
+
+func mergeSpoolWrites(ops []normOp) []normOp {
+	var out []normOp
+	for _, o := range ops {
+		if n := len(out); n > 0 && o.Kind == "write" && o.Area == "tmp" && out[n-1].Kind == "write" && out[n-1].Area == "tmp" {
+			a, _ := strconv.Atoi(out[n-1].N)
+			b, _ := strconv.Atoi(o.N)
+			out[n-1].N = strconv.Itoa(a + b)
+			continue
+		}
+		out = append(out, o)
+	}
+	return out
+}
+
+func traceCheckMain(args []string) int {
+	if len(args) < 2 {
+		fmt.Println("usage: tracecheck <histories> <path to unmodified gts> [seed]")
+		return 2
+	}
+	n, _ := strconv.Atoi(args[0])
+	bin := args[1]
+	seed := uint64(1)
+	if len(args) > 2 {
+		seed, _ = strconv.ParseUint(args[2], 10, 64)
+	}
+	if _, err := exec.LookPath("strace"); err != nil {
+		fmt.Println("selftest tracecheck: strace not available, skipped")
+		return 0
+	}
+	steps, calls := 0, 0
+	for i := 0; i < n; i++ {
+		r := core.NewRNG(core.Mix(seed, 0x7ace, uint64(i)))
+		sc := genHistory(r, "quick")
+		sc.Env = cliEnv{Cache: "ok", Tmp: "ok"}
+		// stdin as a pipe or a redirected file; the terminal form needs no
+		// second validation here
+		for k := range sc.Steps {
+			rs := sc.Steps[k].Run
+			if rs == nil || len(rs.Argv) == 0 || rs.Argv[0] == "cache" || rs.Stdin != "" {
+				continue
+			}
+			last := rs.Argv[len(rs.Argv)-1]
+			if strings.HasPrefix(last, "/u/") {
+				rs.Stdin = last
+				rs.Argv = rs.Argv[:len(rs.Argv)-1]
+			}
+		}
+		res := &core.Result{}
+		x := execCli("C14", sc, res, wrapC14)
+		root, err := realos.MkdirTemp("", "verif-trc-")
+		if err != nil {
+			fmt.Println("SELFTEST-FAIL tracecheck:", err)
+			return 2
+		}
+		ok, msg, s, c := traceReal(sc, x, root, bin)
+		realos.RemoveAll(root)
+		steps += s
+		calls += c
+		if !ok {
+			fmt.Printf("SELFTEST-FAIL tracecheck history %d: %s\nscenario: %s\n", i, msg, wrapC14(sc))
+			return 2
+		}
+	}
+	fmt.Printf("selftest tracecheck: %d histories, %d invocations: the %d system calls the real binary made on cache and temp files (openat, read, write, lseek, close, unlinkat) are the simulator's operations, in the same order with the same byte counts and offsets\n", n, steps, calls)
+	return 0
+}
+
+func traceReal(sc *cliScenario, x *cliExec, root, bin string) (bool, string, int, int) {
+	for _, d := range []string{"/u", "/tmp", "/cache"} {
+		realos.MkdirAll(root+d, 0755)
+	}
+	names := make([]string, 0, len(sc.Files))
+	for n := range sc.Files {
+		names = append(names, n)
+	}
+	sort.Strings(names)
+	for _, n := range names {
+		realos.MkdirAll(filepath.Dir(root+n), 0755)
+		realos.WriteFile(root+n, sc.Files[n].bytes(), 0644)
+	}
+	si, steps, calls := 0, 0, 0
+	for k, st := range sc.Steps {
+		switch {
+		case st.Edit != nil:
+			p := root + st.Edit.File
+			if d, err := realos.ReadFile(p); err == nil {
+				realos.WriteFile(p, st.Edit.Edit.apply(d), 0644)
+			}
+		case st.Run != nil:
+			info := x.steps[si]
+			si++
+			raw := rawArgv(st.Run.Argv)
+			argv := []string{"-f", "-y", "-e", "trace=openat,read,write,lseek,close,unlinkat,copy_file_range,sendfile", "-o", root + "/strace.out", bin}
+			for _, a := range raw {
+				argv = append(argv, mapPath(root, a))
+			}
+			cmd := exec.Command("strace", argv...)
+			cmd.Dir = root + "/u"
+			cmd.Env = []string{"XDG_CACHE_HOME=" + root + "/cache", "TMPDIR=" + root + "/tmp", "PATH=/usr/bin:/bin"}
+			if st.Run.Stdin != "" && st.Run.StdinFile {
+				f, err := realos.Open(root + st.Run.Stdin)
+				if err != nil {
+					return false, fmt.Sprintf("step %d: %v", k, err), steps, calls
+				}
+				f.Seek(int64(st.Run.StdinOffset), 0)
+				cmd.Stdin = f
+				defer f.Close()
+			} else if st.Run.Stdin != "" {
+				d, _ := realos.ReadFile(root + st.Run.Stdin)
+				cmd.Stdin = bytes.NewReader(d)
+			} else {
+				cmd.Stdin = bytes.NewReader(nil)
+			}
+			var out bytes.Buffer
+			cmd.Stdout = &out
+			release := realFifos(root, st.Run.Argv)
+			cmd.Run()
+			release()
+			if st.Run.Stdin == "" && len(st.Run.Argv) > 0 && st.Run.Argv[0] != "cache" {
+				continue // ran without a terminal although the simulated step had one: not comparable
+			}
+			real, err := realNorm(root+"/strace.out", root)
+			if err != nil {
+				return false, fmt.Sprintf("step %d: no strace output: %v", k, err), steps, calls
+			}
+			// how a pipe cuts standard input into reads is the one thing that
+			// legitimately differs: the writes that spool it to the temp file
+			// are compared by their total
+			real, sim := mergeSpoolWrites(real), mergeSpoolWrites(simNorm(info.trace))
+			steps++
+			calls += len(real)
+			if len(real) != len(sim) {
+				return false, fmt.Sprintf("step %d argv=%q: the real binary made %d calls on cache/temp files, the simulator %d operations\nreal: %v\nsim:  %v", k, st.Run.Argv, len(real), len(sim), real, sim), steps, calls
+			}
+			for j := range real {
+				if real[j] != sim[j] {
+					return false, fmt.Sprintf("step %d argv=%q: call %d differs: real %v, simulated %v\nreal: %v\nsim:  %v", k, st.Run.Argv, j, real[j], sim[j], real, sim), steps, calls
+				}
+			}
+		}
+	}
+	return true, "", steps, calls
 }
